@@ -56,11 +56,16 @@ func (conn *Conn) close() {
 		op.ConnClosed(conn)
 	}
 
-	/* call FidDestroy for all remaining fids */
-	if op, ok := (conn.Srv.ops).(SrvFidOps); ok {
-		for _, fid := range conn.fidpool {
-			op.FidDestroy(fid)
-		}
+	/* drop the table's reference to all remaining fids; a fid still used by
+	 * a request that is executing is destroyed when that request finishes */
+	conn.Lock()
+	fids := make([]*SrvFid, 0, len(conn.fidpool))
+	for _, fid := range conn.fidpool {
+		fids = append(fids, fid)
+	}
+	conn.Unlock()
+	for _, fid := range fids {
+		fid.DecRef()
 	}
 }
 
